@@ -59,6 +59,13 @@ def check(run):
     _node_face(run, P)
     _face_face(run, P)
     _holes(run, P)
+    # incidence tables SUPPLIED by a source (MPAS cellsOnVertex/cellsOnEdge/cellsOnCell, ICON, UGRID files) reach the grid in standard form
+    # and are built from the source variables of that role: the typestate and role rules of the readers, restricted to the three tables
+    from .c01 import _conn
+    from ..rules import readers
+    INC = {"node_face_connectivity", "edge_face_connectivity", "face_face_connectivity"}
+    _conn(run, P, only=INC)
+    readers.check_mpas_roles(run, P, targets=INC)
     keys = ["edge_face_connectivity", "node_face_connectivity", "face_face_connectivity"]
     n = lazy.check_getters(run, P, keys)
     run.floor("F-LAZY/getters", n, 3)
